@@ -90,7 +90,10 @@ pub fn build(prop: &str, seed: u64, hist: u64, rng: &mut Rng, ids: &[String]) ->
             if sub < 30 {
                 profile = "corrupt".into();
                 fault_cfg.insert("corrupt".into(), 400);
-            } else if sub < 50 {
+            } else if sub < 42 {
+                // honest peers, boundary-valued service results at every consuming position
+                profile = "odd".into();
+            } else if sub < 58 {
                 // the script that travels with the particle and the bytes handed in as call results are attacker-controlled too
                 profile = "fuzz".into();
                 fault_cfg.insert("script_mut".into(), 350);
@@ -166,6 +169,9 @@ pub fn build(prop: &str, seed: u64, hist: u64, rng: &mut Rng, ids: &[String]) ->
     let ast = match prop {
         _ if fixed == "f1" => crate::script2::gen_f1(rng, np),
         "C18" => script::gen_c18(rng, np),
+        "C01" if profile == "odd" => crate::script3::gen_odd(rng, np),
+        "C20" if rng.chance(20) => crate::script3::gen_maps(rng, np),
+        "C03" | "C07" | "C09" | "C10" | "C04" if rng.chance(5) => crate::script3::gen_maps(rng, np),
         "C13" => script::gen_c13(rng, np),
         "C11" if rng.chance(70) => crate::script2::gen_c11(rng, np),
         _ => script::generate(rng, np, &flags, depth),
